@@ -179,8 +179,29 @@ async fn run(input: RunInput, mode: Mode) -> RunOutput {
     let mut healing: Vec<(u64, usize, usize, u8)> = Vec::new();
     // Peer handles the application took earlier and still holds: (slot, peer, handle, taken at)
     let mut stale: Vec<(usize, usize, anemo::Peer, u64)> = Vec::new();
+    // CPU-bound handlers: requests whose handler occupies its worker thread for a while (the task
+    // running it can neither be polled nor dropped meanwhile); whatever happens to the connection
+    // in that time - close, replacement, loss, restart - must be reported as promptly as ever
+    let cpu_bound = w.flag("cpu_bound_handlers", 0.3);
+    let mut r_cpu = w.rng("wl:cpu-bound");
+    // explicit disconnects on a clean network: (time, who disconnected, whom)
+    let mut clean_disconnects: Vec<(u64, usize, usize)> = Vec::new();
     for _ in 0..n_ops {
         sleep_ms(r.gen_range(0..800)).await;
+        if cpu_bound && r_cpu.gen_bool(0.35) {
+            let a = r_cpu.gen_range(0..n);
+            let b = (a + 1 + r_cpu.gen_range(0..n - 1)) % n;
+            let hold_ms: u64 = if r_cpu.gen_bool(0.6) { r_cpu.gen_range(50..1_500) } else { bound_ns / 1_000_000 + r_cpu.gen_range(500..3_000) };
+            if slots[a].node.net.peers().contains(&ids[b]) && silent_death.map(|(_, d)| d != a && d != b).unwrap_or(true) {
+                let net = slots[a].node.net.clone();
+                let pb = ids[b];
+                tokio::spawn(async move {
+                    let _ = net.rpc(pb, Request::new(Bytes::from_static(b"cpu")).with_header("x-hold-ms", hold_ms.to_string())).await;
+                });
+                w.probe("cpu-bound-handler-started");
+                interesting = true;
+            }
+        }
         // heal what is due
         let now_ms = w.now_ms();
         healing.retain(|(until, a, b, kind)| {
@@ -254,6 +275,9 @@ async fn run(input: RunInput, mode: Mode) -> RunOutput {
             desc = format!("disconnect n{i}-n{j}:{}", if was_listed { "was-connected" } else { "noop" });
             if was_listed {
                 interesting = true;
+                if !faulty && !crashed && silent_death.is_none() {
+                    clean_disconnects.push((now, i, j));
+                }
             }
             if mode == Mode::C09 {
                 disconnect_checks += 1;
@@ -489,6 +513,48 @@ async fn run(input: RunInput, mode: Mode) -> RunOutput {
                             w.violate("listed-peer-unreachable", "quiescence", format!("n{a} lists n{b} after the fault-free tail but an RPC fails: {e}"));
                         }
                     }
+                }
+            }
+        }
+        // (1b) a close that got through (explicit disconnect on a clean, loss-free network) is
+        // reported by the other side one link latency later, whatever that side's handlers are
+        // doing at that moment
+        {
+            let logs: Vec<Vec<(u64, PeerEvent)>> = slots.iter().map(|s| s.log.lock().unwrap().clone()).collect();
+            for (t, a, b) in &clean_disconnects {
+                if slots[*a].incarnation > 0 || slots[*b].incarnation > 0 {
+                    continue;
+                }
+                // did b list a at that instant?
+                let mut listed = false;
+                let mut lost_at = None;
+                for (tb, eb) in &logs[*b] {
+                    match eb {
+                        PeerEvent::NewPeer(q) if *q == ids[*a] && *tb <= *t => listed = true,
+                        PeerEvent::LostPeer(q, _) if *q == ids[*a] && *tb < *t => listed = false,
+                        PeerEvent::LostPeer(q, _) if *q == ids[*a] && *tb >= *t && lost_at.is_none() => lost_at = Some(*tb),
+                        _ => {}
+                    }
+                }
+                if !listed {
+                    continue;
+                }
+                let slack = (2 * lat_max / 1000 + 20) * 1_000_000;
+                let limit = t + slack;
+                // a second connection between the two registered around that instant (a re-dial
+                // racing the disconnect): which of the two got closed is not decidable from outside
+                let racing = |log: &Vec<(u64, PeerEvent)>, other: PeerId| log.iter().any(|(tx, ex)| matches!(ex, PeerEvent::NewPeer(q) if *q == other) && *tx + slack >= *t && *tx <= limit);
+                if racing(&logs[*b], ids[*a]) || racing(&logs[*a], ids[*b]) {
+                    continue;
+                }
+                w.probe("clean-disconnect-propagation-checked");
+                match lost_at {
+                    Some(tl) if tl <= limit => {}
+                    other => w.violate(
+                        "close-not-reported-promptly-by-the-other-side",
+                        "explicit-disconnect",
+                        format!("n{a} disconnected n{b} at {} ms on a loss-free network (latency <= {} us); n{b} reported LostPeer {}", t / 1_000_000, lat_max, match other { Some(tl) => format!("only {} ms later", (tl - t) / 1_000_000), None => "never".into() }),
+                    ),
                 }
             }
         }
